@@ -3,11 +3,12 @@ CONSTANTS
   N = 3
   WithQueries = TRUE
   WithMixed = TRUE
-  HeavyLaws = TRUE
+  HeavyLaws = FALSE
   Mutant <- NoMutant
 VIEW View
 INVARIANT GroupInv
 INVARIANT ImplMatchesRef
+INVARIANT ImplRoutes
 INVARIANT Bounds
 INVARIANT Symmetry
 INVARIANT SubAdditivity
